@@ -81,7 +81,12 @@ def line_job(job):
             target = DEPTH_PATHS[strip] if strip < 3 else None
             applies = (value == 0 and not rev) or (value == 1 and rev)
             changed = sorted(p for p in DEPTH_PATHS if after.get(p) != before.get(p))
-            if applies:
+            if target is None:
+                # exactly N components are removed: nothing is left of x/y/a, the file patch names no file (Names.Strip = <<>>)
+                if rc != 1 or after != before or not se.strip():
+                    probs.append(('strip-too-deep', 'line %r means -p%d on the name x/y/a: expected a refusal (exit 1, message, nothing changed); got exit %d, changed %s'
+                                  % (text, strip, rc, sorted(p for p in set(after) | set(before) if after.get(p) != before.get(p)))))
+            elif applies:
                 want = scen.content([1 - value])
                 if rc != 0 or changed != [target] or after[target][0] != want:
                     probs.append(('strip-or-reverse', 'line %r means -p%d%s: expected only %s to change to cell=%d, exit 0; got exit %d, changed %s'
@@ -145,6 +150,51 @@ def check_c16(prop, tier):
                                   {'tree0': sc['tree0'], 'series': sc['series'], 'cfg': cfg, 'threads': threads, 'reference': o})
         res.cov['parts']['name-resolution'].update({'scenarios_with_differing_names': len(lines), 'runs': len(jobs2), 'bad': nb})
         res.cov['traces_validated_against_impl'] += len(jobs2)
+        # ... the same with -R entries in the series (what a reversed creation / deletion leaves decides which name exists)
+        out, st = p_tool.enumerate_scenarios(res, 'name-resolution-reverse', 'TreesSmall', 'TRUE', 2, 'Cfgs_one', work, 'TRUE')
+        rl = [l for l in open(out, errors='replace') if l.startswith('"{') and '\\"old\\":\\"a\\",\\"new\\":\\"b\\",\\"ren\\":false' in l and '\\"rev\\":true' in l]
+        os.unlink(out)
+        jobs3 = []
+        for li, line in enumerate(rl if len(rl) <= 1500 else rnd.sample(rl, 1500 if tier == 'quick' else 15000)):
+            sc = json.loads(json.loads(line))
+            o = sc['outs'][0]
+            if not o['out']['adversarial']:
+                jobs3.append((sc, o['cfg'], o['out'], 1 + li % 3, None))
+        with Pool(12) as pool:
+            outs3 = pool.map(p_tool.run_one, jobs3, chunksize=16)
+        nb3 = 0
+        for (sc, cfg, o, threads, _), (probs, rc, se) in zip(jobs3, outs3):
+            for cat, msg in probs:
+                if cat in ('tree', 'backup-set', 'crash', 'rej-set', 'exit'):
+                    nb3 += 1
+                    res.violation('name-resolution:' + cat, 'file-name resolution with -R entries: %s (threads %d)' % (msg, threads),
+                                  {'tree0': sc['tree0'], 'series': sc['series'], 'cfg': cfg, 'threads': threads, 'reference': o})
+        res.cov['parts']['name-resolution-reverse'].update({'scenarios': len(rl), 'runs': len(jobs3), 'bad': nb3})
+        res.cov['traces_validated_against_impl'] += len(jobs3)
+        # -R at the level of hunks: the diff A -> B of every small edit script with two or more hunks, marked -R in the
+        # series (spelled at -p1 / -p2), pushed onto B gives A (placement uses the new side's line numbers)
+        import p_diff
+        out = os.path.join(work, 'rdiff.tlc')
+        st = tlc('MC_Diff', constants=dict(p_diff.PLAN['quick'], WithNoEol='FALSE'), cfg_body=p_diff.CFG, out=out, tag='c16-diff')
+        res.add_tlc(st, 'reverse-hunks/MC_Diff')
+        dcases = list(enumerate(tlc_json_lines(out)))
+        os.unlink(out)
+        rjobs = []
+        for ci, case in dcases:
+            for j in p_diff.jobs_for_case(ci, case, 0, ['plain-p1', 'plain-p2']):
+                if j['rev'] and j['nh'] >= 2 and not j['ambiguous'] and not j['a_abs'] and not j['b_abs']:
+                    j['id'] = len(rjobs); rjobs.append(j)
+        rjobs = rnd.sample(rjobs, min(len(rjobs), 700 if tier == 'quick' else 8000))
+        with Pool(12) as pool:
+            routs = pool.map(p_diff.cli_case, [(j, 1 + j['id'] % 2) for j in rjobs], chunksize=8)
+        nb4 = 0
+        for j, why in zip(rjobs, routs):
+            if why:
+                nb4 += 1
+                res.violation('reverse-hunks', 'a multi-hunk diff A->B marked -R in the series, pushed onto B, does not give A: ' + why,
+                              {'patch': bytes.fromhex(j['patch']).decode('latin-1'), 'b_hex': j['a'], 'series_opts': '-p%d -R' % j['strip']})
+        res.cov['parts']['reverse-hunks/MC_Diff'].update({'pushed': len(rjobs), 'bad': nb4})
+        res.cov['traces_validated_against_impl'] += len(rjobs)
         ws.cleanup_all()
     finally:
         shutil.rmtree(work, ignore_errors=True)
